@@ -37,7 +37,7 @@ def fpp_case(draw):
     return {'gc': gc, 'dur': [draw(st.sampled_from(pool)) for _ in nodes],
             'delay': [draw(st.sampled_from(pool)) for _ in pairs],
             'I0': I0, 'R0': R0, 'tmin': tmin, 'tmax': tmax,
-            'api': draw(st.sampled_from(['two', 'two', 'joint-all', 'joint-filtered']))}
+            'api': draw(st.sampled_from(['two', 'two', 'joint-all', 'joint-filtered'])), 'np_values': draw(st.integers(0, 3)) == 0}
 
 
 def tables(case):
@@ -45,6 +45,10 @@ def tables(case):
     pairs = [(u, v) for u in nodes for v in adj[u]]
     dur = {u: _v(d) for u, d in zip(nodes, case['dur'])}
     delay = {p: _v(d) for p, d in zip(pairs, case['delay'])}
+    if case.get('np_values'):
+        import numpy as _np      # user rules often return numpy scalars
+        dur = {u: _np.float64(d) for u, d in dur.items()}
+        delay = {p: _np.float64(d) for p, d in delay.items()}
     return nodes, adj, dur, delay
 
 
